@@ -980,6 +980,9 @@ func TestVerifC15(t *testing.T) {
 
 	// corpus first
 	for _, l := range vfutil.Corpus("C15") {
+		if !strings.HasPrefix(l, "trace ") { // other C15 harnesses' witnesses
+			continue
+		}
 		tr, err := vfC15ParseTrace(l)
 		if err != nil {
 			t.Fatalf("corpus line %q: %v", l, err)
